@@ -2604,8 +2604,8 @@ PENDING_NEW = {        # failure kinds that do NOT occur in the base sweep (repo
     'sets_random:child-array-write-relabels-parent.rdms': 'C',
     'sets_random:parent-array-write-relabels-child': 'C',
 }
-# the same (callable, argument, in-place operation) as one of the 378 keys of the base sweep listed in known_findings.json when this
-# was written (2026-10), observed again on the inputs of these families: one line '<label> <family codes>' each
+# the same (callable, argument, in-place operation) as one of the 368 OPEN keys of the base sweep in known_findings.json when this
+# was written (/repo b07a1529), observed again on the inputs of these families: one line '<label> <family codes>' each
 PENDING_REOBSERVED = dict(ln.rsplit(' ', 1) for ln in """
 Dataset.split_channel:child-array-write-relabels-parent.self CH
 Dataset.split_channel:parent-array-write-relabels-child CH
@@ -2895,9 +2895,6 @@ evaluate_models_searchlight:parent-array-write-rewrites-child TUCGSH
 evaluate_models_searchlight:parent-reorder-rewrites-child TUCGSH
 evaluate_models_searchlight:parent-sort_by-rewrites-child TUCGSH
 extract_variances:parent-array-write-rewrites-child TUCGSQH
-geodesic_transform:child-array-write-rewrites-parent.rdms TUCGSH
-geodesic_transform:modifies-rdms.dissimilarities TUCGSH
-geodesic_transform:parent-array-write-rewrites-child TUCGSH
 inference_util.pool_rdm:child-array-write-relabels-parent.rdms CH
 inference_util.pool_rdm:child-reorder-relabels-parent.rdms TUCGSQH
 inference_util.pool_rdm:child-sort_by-relabels-parent.rdms TUCGSQH
@@ -2915,9 +2912,6 @@ input_check_model:parent-reorder-rewrites-child TUCGSQH
 input_check_model:parent-sort_by-rewrites-child TUCGSQH
 inverse_permute_rdms:child-array-write-relabels-parent.rdms CH
 inverse_permute_rdms:parent-array-write-relabels-child CH
-minmax_transform:child-array-write-rewrites-parent.rdms TUCGSQH
-minmax_transform:modifies-rdms.dissimilarities TUCGSQH
-minmax_transform:parent-array-write-rewrites-child TUCGSQH
 model_from_dict:child-append-relabels-parent.model_dict TUCGSQH
 model_from_dict:child-array-write-rewrites-parent.model_dict TUCGSQH
 model_from_dict:child-reorder-relabels-parent.model_dict TUCGSQH
@@ -2935,9 +2929,6 @@ pooling.pool_rdm:child-sort_by-relabels-parent.rdms TUCGSQH
 pooling.pool_rdm:parent-array-write-relabels-child CH
 pooling.pool_rdm:parent-reorder-relabels-child TUCGSQH
 pooling.pool_rdm:parent-sort_by-relabels-child TUCGSQH
-positive_transform:child-array-write-rewrites-parent.rdms TUCGSQH
-positive_transform:modifies-rdms.dissimilarities QH
-positive_transform:parent-array-write-rewrites-child TUCGSQH
 rdms_from_dict:child-append-relabels-parent.rdm_dict TUCGSQH
 rdms_from_dict:child-array-write-rewrites-parent.rdm_dict TUCGSQH
 rdms_from_dict:child-reorder-relabels-parent.rdm_dict TUCGSQH
@@ -2982,7 +2973,6 @@ sets_of_k_rdm:child-sort_by-relabels-parent.rdms TUCGSQH
 sets_of_k_rdm:parent-array-write-relabels-child CH
 sets_of_k_rdm:parent-reorder-relabels-child TUCGSQH
 sets_of_k_rdm:parent-sort_by-relabels-child TUCGSQH
-sqrt_transform:modifies-rdms.dissimilarities QH
 weight_to_matrices:child-array-write-rewrites-parent.x TUCGSQH
 weight_to_matrices:parent-array-write-rewrites-child TUCGSQH
 """.strip().split('\n'))
